@@ -293,6 +293,45 @@ def check_doc_params(ctx):
               f"ISD.__init__ does not copy the document parameter via self.{s}({src}.{getter}()): snapshots lose or change it")
 
 
+def check_compute_bookkeeping(ctx):
+  """PAIR-compute: every style value that _process_element copies onto the ISD element from an
+  uncomputed source (animation step, specified style, initial value, direction semantics) is
+  registered, with the same property, in the set handed to _compute_styles - otherwise its lengths
+  stay in the source units."""
+  ix = ctx.ix
+  pe = ix.func("ttconv.isd:ISD._process_element")
+  ctx.unit(pe.module)
+  comp = [c for c in own_nodes(pe.node) if isinstance(c, ast.Call) and unparse(c.func).endswith("_compute_styles")]
+  if len(comp) != 1 or not comp[0].args or not isinstance(comp[0].args[0], ast.Name):
+    raise AnalysisError("_process_element: the _compute_styles(<set>, ...) call was not found")
+  sname = comp[0].args[0].id
+  isd_el = unparse(comp[0].args[-1])
+
+  def top(n):
+    for i, st in enumerate(pe.node.body):
+      if any(x is n for x in ast.walk(st)):
+        return i
+    return -1
+  ctop = top(comp[0])
+  n = 0
+  for c in own_nodes(pe.node):
+    if isinstance(c, ast.Call) and isinstance(c.func, ast.Attribute) and c.func.attr == "set_style" and unparse(c.func.value) == isd_el and len(c.args) == 2 and top(c) < ctop:
+      if isinstance(c.args[1], ast.Constant) and c.args[1].value is None:
+        continue
+      prop = unparse(c.args[0])
+      # the statement list that holds the call
+      st = c
+      while not isinstance(st, ast.stmt):
+        st = parent(st)
+      holder = parent(st)
+      sibs = [x for fld in ("body", "orelse") for x in (getattr(holder, fld, []) if isinstance(getattr(holder, fld, None), list) else []) ]
+      adds = [x for sb in sibs for x in ast.walk(sb) if isinstance(x, ast.Call) and isinstance(x.func, ast.Attribute) and x.func.attr == "add" and unparse(x.func.value) == sname and x.args and unparse(x.args[0]) == prop]
+      n += 1
+      ctx.check(bool(adds), "PAIR-compute", f"{pe.qualname}|{short(c, 60)}", ctx.where(pe.module, c), f"`{sname}.add({prop})` in the same block",
+                f"`{short(c, 70)}` copies an uncomputed value onto the ISD element but `{prop}` is not added to `{sname}` in the same block: the value is never computed (lengths stay in %, em, c or px)")
+  ctx.floor("PAIR-compute", "uncomputed style copies in _process_element", n, 3)
+
+
 def check_text_roots(ctx):
   """White space handling and empty-span pruning start at every element that establishes its own
   run of text: p, and rt (whose text _construct_text_list leaves out of the enclosing paragraph's
@@ -366,6 +405,7 @@ def run(ctx):
   ctx.check(tested == cm_oracle.ISD_REGION_CHILDREN and has_one, "TAB-content", "ttconv.isd:ISD.Region|children", ctx.where(isd_region.module, isd_region.node),
             "ISD regions admit exactly one Body", f"ISD.Region.push_child admits {sorted(tested)} (at-most-one guard: {has_one}); must admit exactly one Body")
   check_text_roots(ctx)
+  check_compute_bookkeeping(ctx)
   pe = ctx.ix.func("ttconv.isd:ISD._process_element")
   nc = trav.check_decisions_read_computed(ctx, pe, {pe.params[-1], "selected_region", "inherited_region", "associated_region"},
                                           lambda n: isinstance(n, ast.Call) and unparse(n.func).endswith("_compute_styles"))
